@@ -11,6 +11,11 @@ package c20bed
 //      with PKCE the code_challenge in the redirect must belong to the code_verifier in the cookie of the SAME response, also
 //      when another request is served while this one is being answered (deterministic interleaving through a URL parameter
 //      option that parks the first request).
+//  (c) a storage that answers with a SENTINEL error of the library's own type (`var ErrX = oidc.ErrAccessDenied()…`, one value
+//      for the whole process, as Go code usually declares its errors): requests that fail with it are answered on both routers
+//      (CreateAuthRequest: op.Authorize -> AuthRequestError, LegacyServer.Authorize -> TryErrorRedirect; CreateAccessToken: the token endpoint
+//      answers it as a JSON document).  The sentinel is the storage's object: it is snapshotted around EVERY step of every
+//      history and must be bit-identical afterwards; no answer may carry the state of another request.
 
 import (
 	"fmt"
@@ -32,6 +37,74 @@ import (
 )
 
 var stateSeq atomic.Int64
+
+// StorageSentinel: the storage implementation's sentinel error (one *oidc.Error value for every provider of the process)
+var StorageSentinel = newSentinel()
+
+func newSentinel() *oidc.Error {
+	return oidc.ErrAccessDenied().WithDescription("storage: this user may not use this client")
+}
+
+// SentinelMethods: the storage call that fails with the sentinel, per operation
+var sentinelMethod = map[string]string{"provider": "CreateAuthRequest", "legacy": "CreateAuthRequest", "token": "CreateAccessToken"}
+
+// failWith arms the storage of the instance (counted: concurrent requests of a mix arm and disarm it independently)
+func (in *Instance) failWith(method string, err error) (disarm func()) {
+	in.mu.Lock()
+	defer in.mu.Unlock()
+	if in.faults == nil {
+		in.faults = map[string]int{}
+	}
+	in.faults[method]++
+	in.ProvSt.FailMethod(method, err)
+	return func() {
+		in.mu.Lock()
+		defer in.mu.Unlock()
+		in.faults[method]--
+		if in.faults[method] == 0 {
+			in.ProvSt.FailMethod(method, nil)
+		}
+	}
+}
+
+// SentinelRequest sends one request that the storage refuses with its sentinel error (as it is, or wrapped with %w):
+// router = provider | legacy (a valid authorization request, answered with an error redirect that carries the request's own
+// state) | token (a client_credentials request whose access token cannot be created, answered with a JSON error document).  Returns the canonical answer and the state
+// tokens of OTHER requests found in it.
+func (in *Instance) SentinelRequest(router string, wrapped bool) (answer string, leak []string) {
+	var err error = StorageSentinel
+	if wrapped {
+		err = fmt.Errorf("storage: %w", StorageSentinel)
+	}
+	defer in.failWith(sentinelMethod[router], err)()
+	state := newState("sentinel")
+	var h http.Handler = in.Prov
+	var req *http.Request
+	switch router {
+	case "token":
+		req = form(in.Prov.TokenEndpoint().Relative(), url.Values{"grant_type": {"client_credentials"}, "scope": {"openid"}}, true)
+	case "legacy":
+		h = in.legacyOf()
+		req = httptest.NewRequest(http.MethodGet, "/authorize?"+refusedQuery("", state).Encode(), nil)
+	default:
+		req = httptest.NewRequest(http.MethodGet, in.Prov.AuthorizationEndpoint().Relative()+"?"+refusedQuery("", state).Encode(), nil)
+	}
+	rec := httptest.NewRecorder()
+	func() {
+		defer func() {
+			if p := recover(); p != nil {
+				rec.Body.WriteString(fmt.Sprint("panic:", p))
+			}
+		}()
+		h.ServeHTTP(rec, req)
+	}()
+	raw := fmt.Sprint(rec.Code, " ", rec.Header().Get("Location"), " ", rec.Body.String())
+	raw = strings.ReplaceAll(raw, state, "$S")
+	for _, t := range stateTok.FindAllString(raw, -1) {
+		leak = append(leak, t)
+	}
+	return idLike.ReplaceAllString(raw, "#"), leak
+}
 
 // RefusalClasses: authorization requests that the provider refuses, by the reason
 var RefusalClasses = []string{"noscope", "resptype", "prompt", "onlyunknownscope", "badredirect", "unknownclient"}
